@@ -733,6 +733,11 @@ func (mgr *Manager) startMergeJobIfNeeded() {
 	if mgr.mergeJobRunning || mgr.taggingJobRunning || mgr.converterJobRunning {
 		return
 	}
+	// the index file of a running import is already named (names order the files at the next
+	// start) but gets appended after the merged files, don't create a younger file before it
+	if len(mgr.importJobs) != 0 {
+		return
+	}
 	// only merge if all tags are on the newest version, prioritize updating tags
 	for _, t := range mgr.tags {
 		if !t.Uncertain.IsZero() {
